@@ -1041,8 +1041,15 @@ pub fn c08(thorough: bool, rng: &mut Rng, out: &mut Out) {
                         let mut l2 = format!("e2e direct {} | cfg,{},- snd,{},{} {} cfn,{},- snd,{},{} shw,{},- {} cfn,{},- cfg,{},- off,{},-",
                             signs, at, at, pages1, fr.join(" "), at, at, pages2, at, fr.join(" "), at, at, at);
                         if pages1 == "-" { l2 = l2.replace(" shw,", " nxt,"); }
-                        let _ = out.case(l2, true);
+                        let i2 = out.case(l2, true);
                         out.stat("e2e.foreign-traffic-between-operations");
+                        // direct oracle: whatever the foreign traffic did to the sign, every operation of the
+                        // controller still succeeds (configure-if-needed reconfigures a sign that is not ready)
+                        let o2 = out.impls[i2].clone();
+                        let res2: Vec<&str> = o2.split(" | ").next().unwrap_or("").split(' ').filter(|r| !r.starts_with("raw:")).collect();
+                        if res2.len() != 8 || res2.iter().any(|r| !r.starts_with("ok")) {
+                            out.fail(i2, format!("C08 with traffic from elsewhere ({}) between its operations the controller's results were {:?}: the sign was not brought back to the requested configuration / the pages did not arrive", fr.join(" "), res2));
+                        }
                     }
                 }
                 let i = out.case(line, true);
